@@ -25,12 +25,6 @@ func (chain *Chain) VerifStartNewRoundAndPersist(references *common.RoundLink, t
 	return nc != nil && nf != nil, dummy, err
 }
 
-// VerifValidateNewRound calls validateNewRound on a copy of the current cache round.
-func (chain *Chain) VerifValidateNewRound(references *common.RoundLink, timestamp uint64, finalized bool) (*FinalRound, bool, error) {
-	cache, _ := chain.StateCopy()
-	return chain.validateNewRound(cache, references, timestamp, finalized)
-}
-
 // VerifUpdateEmptyHeadRoundAndPersist calls updateEmptyHeadRoundAndPersist on copies of the
 // current final and cache round, as the CoSi paths do.
 func (chain *Chain) VerifUpdateEmptyHeadRoundAndPersist(references *common.RoundLink, timestamp uint64, strict bool) error {
